@@ -4,7 +4,7 @@
 From Coq Require Import Extraction ExtrOcamlBasic ExtrOCamlFloats ExtrOCamlInt63.
 From Coq Require Import List ZArith Floats.
 From MT Require Import Arith SweepModel GraphModel InitModel CtrlModel MainModel Layout GenLayout
-     GenParams FloatInst CliModel Mt19937 SeededModel CliMain.
+     GenParams FloatInst CliModel Mt19937 SeededModel CliMain FmtG.
 
 Extraction Language OCaml.
 Set Extraction Optimize.
@@ -19,4 +19,4 @@ Extraction "../ocaml/model.ml"
   w_of_flat_gen w_of_flat_ass flat_of_w_gen flat_of_w_ass
   idx unidx t_make t_resize t_idx idx_gen idx_ass cxx_idx cxx_transpose_perm cxx_diag_dims cxx_diag_access cxx_sym_dims
   cxx_eval_period
-  parse_adjacency read_affinity render_nat membership_rows affinity_rows opt_exists opt_value cli_main.
+  parse_adjacency read_affinity render_nat membership_rows affinity_rows opt_exists opt_value cli_main fmt_g6.
